@@ -1444,6 +1444,8 @@ def generate(spec, repo, out_path=None):
         L.append("")
     L.append("end %s" % spec["namespace"])
     text = "\n".join(L) + "\n"
+    # specs that preprocess sources into scratch copies: keep the emitted text independent of the scratch location
+    text = re.sub(r"/[\w/.-]*/cxx2lean-pp-[\w.-]+/", "", text)
     if out_path:
         old = open(out_path).read() if os.path.exists(out_path) else None
         if old != text:
